@@ -2236,6 +2236,25 @@ class Enumerator:
                 if des is not None:
                     yield from self.block(des, st, handlers)
                     return
+            # d.setdefault(k, v) as a statement: `if k not in d: d[k] = v`
+            # (v is a plain value: nothing is evaluated for it)
+            mc_ = method_call(node.value) if isinstance(
+                node.value, ast.Call) else None
+            if mc_ and mc_[1] == 'setdefault' and len(
+                    node.value.args) == 2 and not node.value.keywords and \
+                    not any(has_call(a) for a in node.value.args) and \
+                    not has_call(mc_[0]):
+                k_, v_ = node.value.args
+                alt = ast.If(
+                    test=ast.Compare(left=k_, ops=[ast.NotIn()],
+                                     comparators=[mc_[0]]),
+                    body=[ast.Assign(targets=[ast.Subscript(
+                        value=mc_[0], slice=k_, ctx=ast.Store())],
+                        value=v_)], orelse=[])
+                ast.copy_location(alt, node)
+                ast.fix_missing_locations(alt)
+                yield from self.stmt(alt, st, handlers)
+                return
             upd = self._desugar_update(node.value, st)
             if upd is not None:
                 yield from self._for(upd, st, handlers)
